@@ -33,7 +33,144 @@ def c02_queries(tier):
     return qs
 
 
+EMAIL_SRC = ['src/is_822_email.c', 'src/is_5321_email.c', 'src/is_5322_email.c', 'partial/idn2/is_6531_email.c']
+EMAIL_FN = ['is_822_email', 'is_5321_email', 'is_5322_email', 'is_6531_email']
+
+
+def email_query(prefix, m, N, extra_defs=(), covers=None, timeout=900, **kw):
+    name = MODES[m][1]
+    cov = covers if covers is not None else ['end', 'accepted-hostname', 'accepted-literal', 'tld-class']
+    return Query('%s-email-%s-N%d' % (prefix, name, N), 'b_email.c', repo=[EMAIL_SRC[m], 'src/eav.c'],
+                 defs=D(VF_N=N, VF_MODE=m) + list(extra_defs), unwind=N + 2,
+                 covers=cov, leak=True,
+                 optional_covers=['lpart-too-long', 'accepted-lpart-64', 'special', 'not-fqdn', 'idn-error',
+                                  'accepted-tagged-v6', 'accepted-v4', 'accepted-untagged-v6', 'lpart-64-rejected-by-leaf'],
+                 bounds={'max_address_len': N, 'tld_check': 'symbolic', 'alphabet': '0x01-0xFF'},
+                 functions=[EMAIL_FN[m], 'eav_result_free', 'basic_email_check/check_tld/check_ip (macros)'],
+                 note='leaf validators are recording uninterpreted stubs (harness/leafstubs.h)',
+                 timeout=timeout, **kw)
+
+
+def c01_queries(tier):
+    N = 24 if tier == 'quick' else 80
+    qs = [email_query('C01', m, N) for m in range(4)]
+    return qs
+
+
+API_SRC = ['partial/idn2/eav.c', 'src/eav.c']
+API_FN = ['eav_init', 'eav_setup', 'eav_is_email', 'eav_errstr', 'eav_free', 'eav_result_free']
+
+
+def single_query(prefix, backend='idn2', extra=(), **kw):
+    return Query('%s-api-single-%s' % (prefix, backend), 'c_single.c',
+                 repo=['partial/%s/eav.c' % backend, 'src/eav.c'], defs=list(extra), unwind=CB_UNW, leak=True,
+                 idn=None if backend == 'idn2' else backend,
+                 covers=['end', 'invalid-rfc', 'class-allowed', 'class-denied', 'idn-error', 'accepted', 'rejected'],
+                 bounds={'allow_tld': 'any int (2^32)', 'rfc': 'any int (2^32)', 'callback rc': '0, -1..-35, classes 1..9',
+                         'tld_check': 'both', 'eav_t initial bytes': 'arbitrary'},
+                 functions=API_FN, note='callbacks and idn2_strerror are uninterpreted stubs (harness/cbstubs.h)', **kw)
+
+
+CB_UNW = 130   # > sizeof(eav_t) for the garbage-fill loop; > EEAV_MAX for the message loop
+
+
+def history_query(prefix, K, backend='idn2', extra=(), addrs=2, **kw):
+    return Query('%s-api-history-%s-K%d' % (prefix, backend, K), 'c_history.c',
+                 repo=['partial/%s/eav.c' % backend, 'src/eav.c'],
+                 defs=D(VF_K=K, CB_ADDRS=addrs) + list(extra), unwind=CB_UNW, unwindset={'harness.1': K + 1}, leak=True,
+                 idn=None if backend == 'idn2' else backend,
+                 covers=['end', 'two-validations', 'reinit-after-use', 'accept-after-earlier-validation'],
+                 optional_covers=['idn-fault-after-earlier-validation', 'failed-setup-after-success'],
+                 bounds={'operations': K, 'address_pool': addrs, 'settings': 'any int / bool',
+                         'callback results': 'uninterpreted function of (mode,tld_check,address)'},
+                 functions=API_FN, note='callbacks uninterpreted; compared with a fresh object after every validation', **kw)
+
+
+def c08_queries(tier):
+    qs = [single_query('C08')]
+    N = 16 if tier == 'quick' else 40
+    qs += [email_query('C08', m, N, covers=['end', 'accepted-hostname', 'accepted-literal']) for m in range(4)]
+    return qs
+
+
+def c13_queries(tier):
+    K = 4 if tier == 'quick' else 6
+    return [history_query('C13', K, timeout=3000)]
+
+
+def c15_queries(tier):
+    qs = [single_query('C15')]
+    return qs
+
+
+LOCAL_SRCS = ['src/is_822_local.c', 'src/is_5321_local.c', 'src/is_5322_local.c', 'src/is_6531_local.c', 'src/utf8_decode.c']
+
+
+def cross_query(prefix, kind, N, covers, label, srcs=None, ctx=1, **kw):
+    return Query('%s-cross-%s-N%d' % (prefix, label, N), 'a_local_cross.c', repo=srcs or LOCAL_SRCS,
+                 defs=D(VF_N=N, VF_CROSS=kind, VF_CTX=ctx), unwind=N + ctx + 6, covers=['end'] + covers,
+                 bounds={'max_len': N, 'ctx_bytes': ctx}, functions=['is_822_local', 'is_5321_local', 'is_5322_local', 'is_6531_local'], **kw)
+
+
+def c03_queries(tier):
+    qs = []
+    for L in range(0, 5):
+        qs.append(Query('C03-utf8dec-L%d' % L, 'a_utf8dec.c', repo=['src/utf8_decode.c'], defs=D(VF_L=L), unwind=6,
+                        covers=['end'] + (['four-byte', 'error-surrogate-lead', 'error-overlong-lead'] if L == 4 else []),
+                        optional_covers=['three-byte', 'two-byte', 'error-surrogate-lead', 'error-overlong-lead', 'four-byte'],
+                        bounds={'window_bytes': L, 'exhaustive_over_window': True},
+                        functions=['utf8_decode_init', 'utf8_decode_next', 'utf8_decode_at_byte', 'get', 'cont']))
+    N = 7 if tier == 'quick' else 10
+    src = ['src/is_6531_local.c', 'src/utf8_decode.c']
+    if tier == 'quick':
+        qs.append(Query('C03-local-6531-N%d' % N, 'a_local.c', repo=src, defs=D(VF_N=N, VF_CTX=2, VF_MODE=3), unwind=N + 4,
+                        covers=['end', 'accepted-quoted', 'accepted-dotted', 'rejected', 'accepted-multibyte'],
+                        bounds={'max_len': N, 'ctx_bytes': 2, 'alphabet': '0x01-0xFF'}, functions=['is_6531_local', 'utf8_decode_next'],
+                        timeout=900))
+    else:
+        for n in range(0, N + 1):
+            qs.append(Query('C03-local-6531-len%d' % n, 'a_local.c', repo=src,
+                            defs=D(VF_N=n, VF_CTX=2, VF_MODE=3, VF_EXACT_N=None), unwind=n + 4,
+                            covers=['end'] + (['accepted-quoted', 'accepted-dotted', 'rejected', 'accepted-multibyte'] if n >= 3 else []),
+                            bounds={'len': n, 'ctx_bytes': 2, 'alphabet': '0x01-0xFF'}, functions=['is_6531_local', 'utf8_decode_next'],
+                            timeout=3000, weight=n))
+    M = 8 if tier == 'quick' else 11
+    qs.append(cross_query('C03', 1, M, ['both-accept-quoted', 'both-reject'], 'ascii-6531-vs-5321',
+                          srcs=['src/is_5321_local.c', 'src/is_6531_local.c', 'src/utf8_decode.c'], timeout=3000))
+    qs.append(cross_query('C03', 4, 8, ['x-four-byte', 'x-two-byte'], 'aXb', srcs=src))
+    return qs
+
+
 PROPS = {
+    'C03': {
+        'queries': c03_queries,
+        'level': 'model_checking',
+        'outside': ['local parts longer than max_len; the decoder itself is covered completely (all windows of 0-4 bytes)',
+                    'lengths >= 2^31 (utf8_decode_init takes int)'],
+        'assumptions': ['reference recogniser ref/ref_local.h (Unicode Table 3-7 + RFC 5321 grammar) is the reading of the property text'],
+    },
+    'C08': {
+        'queries': c08_queries,
+        'level': 'model_checking',
+        'outside': ['the idn/idnkit copies of eav.c are covered by C18'],
+        'explanation': 'policy layer decided without bound: allow_tld and rfc are unconstrained 32-bit values',
+    },
+    'C13': {
+        'queries': c13_queries,
+        'level': 'model_checking',
+        'outside': ['histories longer than the stated number of operations'],
+    },
+    'C15': {
+        'queries': c15_queries,
+        'level': 'model_checking',
+        'outside': [],
+    },
+    'C01': {
+        'queries': c01_queries,
+        'level': 'model_checking',
+        'outside': ['addresses longer than max_address_len'],
+        'assumptions': ['leaf validators behave as arbitrary functions of their (start,end) range with the documented result range'],
+    },
     'C02': {
         'queries': c02_queries,
         'level': 'model_checking',
